@@ -625,7 +625,7 @@ func (w *lworld) rotationHistory(n int) {
 	rng := w.rng
 	off := w.M0()
 	now := off + 3300 + uint32(rng.Intn(200))
-	drv.SetClock(now)
+	setClock(now)
 	w.nextID++
 	k := refenc.GenKey(rng)
 	a := w.MkAuth(w.nextID, k.Pub, uint64(10000+rng.Intn(5000)))
@@ -667,7 +667,18 @@ func (w *lworld) rotationHistory(n int) {
 	for i, in := range pool {
 		plans[i%G] = append(plans[i%G], in)
 	}
+	// the real impact job runs free during these histories (it touches nothing the model predicts);
+	// afterwards its values must sit at or below now-offset
+	drv.GateImpact(false)
 	w.runHistory(fmt.Sprintf("rotation-%d", n), plans, nil, []lin{{K: kReadAll}}, false, nil)
+	ia := drv.ImpactArrive.Load()
+	drv.GateImpact(true)
+	for i := 0; i < 3000 && drv.ImpactArrive.Load() == ia; i++ {
+		time.Sleep(time.Millisecond)
+	}
+	if !w.abort.Load() {
+		checkImpactPositions(w.S, w.r, "rotation history", nil)
+	}
 }
 
 // selfTest feeds the checker one legal and one illegal synthetic history so
